@@ -34,6 +34,12 @@ type SpecEnv struct {
 	transparent bool // reveal every opaque spec function (used when proving lemmas)
 	bound   []string // SMT names of the variables bound by enclosing quantifiers
 	alias   map[string]string // renamed identifiers of the function the clause belongs to (g_alias.go)
+	cells   map[string]cellRef // variables captured by reference (a closure's free variables): read from the state the expression is evaluated in
+}
+
+type cellRef struct {
+	p PtrV
+	t types.Type
 }
 
 func (env *SpecEnv) with(name string, tv TV) *SpecEnv {
@@ -343,6 +349,9 @@ func (env *SpecEnv) stringLit(s string) TV {
 func (env *SpecEnv) evalIdent(name string) TV {
 	if tv, ok := env.vars[name]; ok {
 		return tv
+	}
+	if c, ok := env.cells[name]; ok {
+		return TV{env.fc.load(env.st, c.p, c.t), c.t}
 	}
 	switch name {
 	case "true", "false":
